@@ -783,7 +783,7 @@ func ruleSameContextPredicate(c *Ctx, rule string) {
 			}
 		}
 	}
-	c.floor(rule, "isContextType(arg.Type) sites over injector arguments", n, 3)
+	c.floor(rule, "isContextType(arg.Type) sites over injector arguments", n, 2)
 	if len(shapes) <= 1 {
 		c.ok(rule, fmt.Sprintf("all %d sites test the same expression of the argument's type", n), strings.Join(sortedKeys(shapes), " | "))
 		return
@@ -1236,6 +1236,27 @@ func ruleUsedMarkingMatchesEmission(c *Ctx, rule string) {
 						}
 						if typeIdx >= 0 && typeIdx < len(cs.common.Args) && fills {
 							t := strings.Join(s.eval(cs.arg(typeIdx)), "|")
+							// the marking lives in a helper that gets the type as a parameter: the helper's only call is the
+							// marking site, in its caller
+							if prm, isP := resolve(cs.arg(typeIdx)).(*ssa.Parameter); isP && prm.Parent() == fn {
+								var sitesOf []callSite
+								for _, g := range pkgFuncs(L, genPkg) {
+									for _, cs3 := range callsIn(g) {
+										if c3 := cs3.common.StaticCallee(); c3 != nil && originOf(c3) == fn {
+											sitesOf = append(sitesOf, cs3)
+										}
+									}
+								}
+								if len(sitesOf) == 1 {
+									up := sitesOf[0]
+									idx := paramIndex(fn, prm)
+									if idx >= 0 && idx < len(up.common.Args) {
+										t = strings.Join(s.eval(up.common.Args[idx]), "|")
+										fn, anchor = up.fn, up.instr
+										construct = fnName(fn) + ":used-marking"
+									}
+								}
+							}
 							if strings.HasPrefix(t, "field:internal/kessoku.Return.Type(") {
 								owner := strings.TrimSuffix(strings.TrimPrefix(t, "field:internal/kessoku.Return.Type("), ")")
 								want = append(want, "field:internal/kessoku.Return.ASTTypeExpr("+owner+")")
@@ -3619,6 +3640,46 @@ func ruleUserSyntaxRequalified(c *Ctx, rule string) {
 		rewriters[root] = true
 	}
 	c.floor(rule, "functions that rewrite identifier names of user syntax", len(rewriters), 1)
+	// a function that walks the expression it is given with a rewriter (calls it, or hands it to ast.Inspect as a callback or
+	// method value) rewrites that expression
+	carriers := map[*ssa.Function]bool{}
+	for _, key := range []string{"internal/kessoku.Return.ASTTypeExpr", "internal/kessoku.ProviderSpec.ASTExpr"} {
+		for _, st := range storesToField(pkgFuncs(L, genPkg), key) {
+			carriers[st.Parent()] = true
+		}
+	}
+	takesSyntax := func(f *ssa.Function) bool {
+		for _, prm := range f.Params {
+			if t := prm.Type().String(); t == "go/ast.Expr" || t == "go/ast.Node" || t == "*go/ast.Ident" {
+				return true
+			}
+		}
+		return false
+	}
+	for round := 0; round < 3; round++ {
+		for _, g := range pkgFuncs(L, genPkg) {
+			if g.Parent() != nil || rewriters[g] || carriers[g] || !takesSyntax(g) {
+				continue
+			}
+			for _, cs := range callsIn(g) {
+				if cal := cs.common.StaticCallee(); cal != nil && rewriters[originOf(cal)] {
+					rewriters[g] = true
+				}
+				for _, a := range cs.common.Args {
+					if mc, isMC := resolve(a).(*ssa.MakeClosure); isMC {
+						f := mc.Fn.(*ssa.Function)
+						if strings.HasPrefix(f.Synthetic, "bound method wrapper") {
+							if m, isF := f.Object().(*types.Func); isF {
+								if mf := f.Prog.FuncValue(m); mf != nil && rewriters[mf] {
+									rewriters[g] = true
+								}
+							}
+						}
+					}
+				}
+			}
+		}
+	}
 	n := 0
 	for _, key := range []string{"internal/kessoku.Return.ASTTypeExpr", "internal/kessoku.ProviderSpec.ASTExpr"} {
 		for _, st := range storesToField(pkgFuncs(L, genPkg), key) {
